@@ -69,7 +69,9 @@ RECURSIVE Cone(_, _, _, _)
 Cone(gs, i, cone, acc) ==
   IF i = 0 THEN acc
   ELSE LET g == gs[i] IN
-    IF g.name = "IDEN" THEN Cone(gs, i - 1, cone, acc)
+    \* (fixed in /repo 0e107742: only an IDEN without controls is skipped; before, the label was tested first and
+    \*  the tensors of a controlled IDEN were dropped - deviation "cone-ctliden", self-test MC_dev_ctliden)
+    IF g.name = "IDEN" /\ (g.c = <<>> \/ "cone-ctliden" \in Deviations) THEN Cone(gs, i - 1, cone, acc)
     ELSE IF g.c # <<>> THEN
       LET regs == SetOfSeq(g.c) \cup SetOfSeq(g.q) IN
       IF regs \cap cone # {} THEN Cone(gs, i - 1, cone \cup regs, acc \cup {i}) ELSE Cone(gs, i - 1, cone, acc)
@@ -188,7 +190,6 @@ ParamCtl(g) == g.par /\ g.c # <<>>            \* PArray has no reshape: Attribut
 \* ---- exact Circuit
 ApplyExact(g) ==
   /\ Exact
-  /\ (g.name = "IDEN" /\ g.c # <<>>) => "cone-ctliden" \in Deviations       \* KF-C07-5
   /\ IF ParamCtl(g)
      THEN /\ UNCHANGED <<gates, reg, tn, tnv, ver>> /\ rej' = TRUE
      ELSE /\ gates' = Append(gates, g) /\ tn' = Append(tn, g) /\ ver' = ver + 1 /\ rej' = FALSE
@@ -276,7 +277,8 @@ UpdateParams ==
 \* ---- copy() and continuing on either object
 Copy ==
   /\ other = <<>> /\ Len(gates) > 0
-  \* copy() copies _storage, _sampled_conditionals and _sample_n_gates but not _marginal_storage_size (KF-C07-7)
+  \* before /repo b38acc9f copy() copied _storage, _sampled_conditionals and _sample_n_gates but not
+  \* _marginal_storage_size (deviation "copy-mss", self-test MC_dev_copy); now it is set in __init__ and copied
   /\ other' = <<[Me EXCEPT !.mss = IF "copy-mss" \in Deviations THEN FALSE ELSE mss]>> /\ rej' = FALSE
   /\ UNCHANGED <<gates, reg, tn, tnv, store, sng, mss, ver, perm, phys, qok, fresh>>
   /\ Bump([op |-> "copy"])
@@ -323,7 +325,7 @@ QueryPerm(q) ==
 Query(q) == (QueryExact(q) \/ QueryPerm(q)) /\ Bump([op |-> "query", q |-> q])
 
 Init ==
-  /\ gates = <<>> /\ tn = <<>> /\ store = EmptyStore /\ sng = 0 - 1 /\ mss = FALSE /\ ver = 0
+  /\ gates = <<>> /\ tn = <<>> /\ store = EmptyStore /\ sng = 0 - 1 /\ mss = ("copy-mss" \notin Deviations) /\ ver = 0
   /\ reg = IF Record THEN <<>> ELSE Basis(N, 0)
   /\ tnv = IF Record \/ ~Exact THEN <<>> ELSE Basis(N, 0)
   /\ phys = IF Record \/ Exact THEN <<>> ELSE Basis(N, 0)
